@@ -27,6 +27,7 @@ import (
 
 	"verif/internal/gen"
 	"verif/internal/libx"
+	"verif/internal/mcast"
 	"verif/internal/memsock"
 	"verif/internal/mon"
 	"verif/internal/spec"
@@ -255,6 +256,83 @@ func checkInbound(e *endpoint, c *spec.Cemi, what string) bool {
 	return true
 }
 
+// realGroupRouter is the loopback slice: the real knx.NewGroupRouter on a
+// per-process multicast group. Outbound frames are read from an AF_PACKET
+// capture and judged with the same independent parser; inbound indications
+// are injected as datagrams to the group.
+func realGroupRouter(rng *rand.Rand, n int) {
+	l, err := mcast.Open(2000)
+	if err != nil {
+		r.Inconclusive("real group router slice: " + err.Error())
+		return
+	}
+	defer l.Close()
+	gr, err := knx.NewGroupRouter(l.Group, knx.RouterConfig{PostSendPauseDuration: 0})
+	if err != nil {
+		r.Inconclusive("real group router slice: " + err.Error())
+		return
+	}
+	defer gr.Close()
+	r.Crumb("C12 real group router")
+	attrs := map[string]string{"client": "router-real-socket"}
+	for i := 0; i < n; i++ {
+		ln := rng.Intn(20)
+		if i%6 == 0 {
+			ln = gen.Len(rng, 0, 254)
+		}
+		ev := knx.GroupEvent{Command: knx.GroupCommand(rng.Intn(3)), Source: cemi.IndividualAddr(rng.Intn(65536)), Destination: cemi.GroupAddr(rng.Intn(65536)), Data: gen.Bytes(rng, ln)}
+		from := l.Count()
+		if err := gr.Send(ev); err != nil {
+			r.Violate("outbound.error", attrs, map[string]interface{}{"event": fmt.Sprintf("%+v", ev)}, "[real group router] Send failed: %v", err)
+			return
+		}
+		if !l.WaitCount(from+1, 3*time.Second) {
+			r.Inconclusive("real group router slice: the capture did not see a transmission; slice not judged")
+			return
+		}
+		r.Eval(1)
+		nOut++
+		fr := l.Frames(from)
+		if len(fr) != 1 {
+			time.Sleep(2 * time.Millisecond)
+			fr = l.Frames(from)
+		}
+		if len(fr) != 1 {
+			r.Violate("outbound.frame-count", attrs, map[string]interface{}{"event": fmt.Sprintf("%+v", ev)}, "[real group router] Send(%+v) put %d datagrams on the wire", ev, len(fr))
+			return
+		}
+		pp := spec.Parse(fr[0].Bytes)
+		p := spec.ParseLData(pp.Cemi)
+		wantC1 := uint8(0x3e)
+		if len(ev.Data) <= 15 {
+			wantC1 |= 0x80
+		}
+		if !pp.OK || pp.Service != spec.SvcRoutingInd || !p.OK || p.Code != spec.McLDataInd || p.Ctrl1 != wantC1 || p.Ctrl2 != 0xe0 || p.Src != uint16(ev.Source) || p.Dst != uint16(ev.Destination) ||
+			p.TPDU.Control || p.TPDU.Cmd != uint8(ev.Command) || !bytes.Equal(p.TPDU.Data, normalise(ev.Data)) {
+			r.Violate("outbound.field", map[string]string{"client": "router-real-socket", "field": "any"}, map[string]interface{}{"event": fmt.Sprintf("%+v", ev), "datagram": hex.EncodeToString(fr[0].Bytes)},
+				"[real group router] Send(%+v) put %x on the wire, which is not the prescribed L_Data.ind frame", ev, fr[0].Bytes)
+			return
+		}
+		// inbound through the real socket: an injected group write surfaces unchanged
+		if i%4 == 0 {
+			mc, mev := markerCemi()
+			l.Inject(spec.Header(spec.SvcRoutingInd, spec.EncodeCemi(nil, mc)))
+			select {
+			case got, ok := <-gr.Inbound():
+				if !ok || !sameEvent(got, mev) {
+					r.Violate("inbound.fields", attrs, map[string]interface{}{"got": fmt.Sprintf("%+v", got)}, "[real group router] an injected group write surfaced as %+v, expected %+v", got, mev)
+					return
+				}
+				nIn++
+			case <-time.After(3 * time.Second):
+				r.Violate("inbound.missing", attrs, nil, "[real group router] an injected group write did not surface")
+				return
+			}
+		}
+	}
+	r.DistinctStr("real-group-router")
+}
+
 func kindName(code uint8) string {
 	switch code {
 	case spec.McLDataReq:
@@ -428,6 +506,7 @@ func run(rr *mon.Run) {
 		b.close()
 	}
 	_ = libx.Dump
+	realGroupRouter(rng, r.Pick(300, 20000))
 	r.Observe("outbound_events", nOut)
 	r.Observe("inbound_frames", nIn)
 	r.Observe("inbound_expected_to_surface", nSurfaced)
